@@ -379,4 +379,15 @@ def run (A : Arith22 V F) (q : Query) (db : List (Series V)) : Result V F :=
             | some i => r.vals.getD i Val.null
             | none => Val.null })
 
+/-! ## sparse two-field series (real storage path): the engine's per-series iterators
+    drop the points whose condition cursor (`bufCursor.nextAt` aligned to the driving
+    field's timestamp, tsm1/iterator.gen.go) yields nil or fails the WHERE expression, and
+    carry the aux cursor's value at that timestamp along the point -/
+
+def run2 (A : Arith22 V F) (q : Query2) (db : List (Series2 V)) : Result V F :=
+  if !supported2 q then .err "unsupported" else
+  match run A q.q (db.map (project A q)) with
+  | .rows l => if q.aux then .rows (l.map fun r => { r with vals := r.vals ++ [auxAt db r.host r.time] }) else .rows l
+  | e => e
+
 end Influx.InfluxQLPipe
